@@ -425,6 +425,13 @@ def r5_8(cx):
     if okd:
         mn = st[0][1].b.strip()
         okd = any(is_param_field(a, 'count') for a in mn.args) and any(a.strip().kind == 'param' and a.strip().info['i'] == 2 for a in mn.args)
+    if not okd and len(st) == 1:
+        # the same arithmetic without the intermediate minimum: excess = n.saturating_sub(count) taken *before*
+        # count = count.saturating_sub(n)
+        v = st[0][1]
+        okd = is_call(v, 'saturating_sub') and is_param_field(v.args[0], 'count') and v.args[1].strip().kind == 'param' and v.args[1].strip().info['i'] == 2 and \
+            is_call(r, 'saturating_sub') and r.args[0].strip().kind == 'param' and r.args[0].strip().info['i'] == 2 and is_param_field(r.args[1], 'count') and \
+            r.pos is not None and dc.pos_dominates(r.pos, st[0][0]) and r.pos != st[0][0]
     cx.check(okd, 'decrement-arithmetic', dc, None, 'take = min(count, n); count -= take; return n - take', fail_detail='decrement_count is not (count -= min(count, n); n - min(count, n))')
     ic = prog.fn(AN + '::increment_count')
     st = [(pos, ic.rvalue_expr(rv).strip()) for pos, pl, rv in ic.stores() if pl['p'] and pl['p'][-1].get('n') == 'count' and rv is not None]
